@@ -30,8 +30,19 @@
 #define COMP ZCK_COMP_ZSTD
 #endif
 #define SKIP (COMP == ZCK_COMP_ZSTD ? 1 : 0)
-static const size_t CL[3] = {0, CL1, CL2}, UL[3] = {0, UL1, UL2};
-static const int VV[3] = {1, V1, V2};
+#ifndef CL0
+#define CL0 0
+#define UL0 0
+#endif
+#ifndef M0
+#define M0 0x25
+#endif
+#define DICT (CL0 > 0)
+static const size_t CL[3] = {CL0, CL1, CL2}, UL[3] = {UL0, UL1, UL2};
+#ifndef V0
+#define V0 1
+#endif
+static const int VV[3] = {V0, V1, V2};
 unsigned char IN_file[FCAP];
 
 int v_calls; int v_for_chunk[4];
@@ -51,6 +62,19 @@ int validate_current_chunk(zckCtx *zck) {
     return v;
 }
 
+/* whole-data checksum: recorder with an arbitrary (symbolic) outcome - it is only consulted at the very end of a run */
+int vf_calls, vf_last;
+int validate_file(zckCtx *zck, zck_log_type t) {
+    (void)t;
+    if(zck == NULL || zck->error_state > 0) return 0;
+    if(zck->has_uncompressed_source) return 1;
+    char *d = hash_finalize(zck, &zck->check_full_hash);
+    if(d == NULL) return 0;
+    free(d);
+    vf_calls++;
+    vf_last = nondet_bool() ? 1 : -1;
+    return vf_last;
+}
 typedef struct { tgt_t t; size_t ooff[3], olen[3]; int ok[3]; unsigned char out[8]; size_t outlen; int allok; } rq_t;
 static rq_t setup(void) {
     rq_t s;
@@ -67,6 +91,7 @@ static rq_t setup(void) {
     /* the codec's frame marker (first stored byte of a zstd chunk) is concrete per instance as well: it decides whether decoding
      * fails, i.e. control flow; the payload bytes stay symbolic */
     if(COMP == ZCK_COMP_ZSTD) {
+        if(CL0 > 0 && DOFF < FSZ) vf_data0[DOFF] = M0;
         if(CL1 > 0 && DOFF + s.t.c[1]->start < FSZ) vf_data0[DOFF + s.t.c[1]->start] = M1;
         if(NCH > 2 && CL2 > 0 && DOFF + s.t.c[2]->start < FSZ) vf_data0[DOFF + s.t.c[2]->start] = M2;
     }
@@ -75,9 +100,11 @@ static rq_t setup(void) {
     for(size_t i = 0; i < NCH; i++) {
         size_t off = DOFF + s.t.c[i]->start;
         int present = off + CL[i] <= FSZ;
-        int dec = (CL[i] == 0) ? (UL[i] == 0) : (COMP == ZCK_COMP_ZSTD ? (UL[i] + 1 == CL[i] && vf_data0[off < FCAP ? off : 0] == 0x25) : 1);
+        unsigned char want_marker = (i > 0 && DICT) ? 0x26 : 0x25;     /* data chunks are coded with the dictionary when there is one */
+        int dec = (CL[i] == 0) ? (UL[i] == 0) : (COMP == ZCK_COMP_ZSTD ? (UL[i] + 1 == CL[i] && vf_data0[off < FCAP ? off : 0] == want_marker) : 1);
         size_t dl = CL[i] == 0 ? 0 : CL[i] - SKIP;
-        s.ok[i] = (i == 0) ? 1 : (present && VV[i] == 1 && dec);
+        s.ok[i] = (i == 0 && !DICT) ? 1 : (present && VV[i] == 1 && dec);
+        if(i == 0) dl = 0;                               /* the dictionary is not part of the content */
         s.ooff[i] = s.outlen; s.olen[i] = dl;
         for(size_t k = 0; k < dl; k++) s.out[s.outlen++] = vf_data0[off + SKIP + k < FCAP ? off + SKIP + k : 0];
         if(!s.ok[i]) s.allok = 0;
@@ -121,11 +148,18 @@ void h15q(void) {
     if(!failed && eof) {
         bool cl = zck_close(z);
         if(cl) {
+            OBLIGE(vf_calls >= 1 && vf_last == 1, "C02/close-succeeds-only-if-the-whole-data-checksum-was-compared-and-matched");
             OBLIGE(s.allok, "C02/successful-read-to-end-and-close-only-for-a-file-the-reference-decoder-accepts");
             OBLIGE(pos == s.outlen, "C02/successful-read-to-end-returns-the-whole-content");
         }
     }
-    if(s.allok && FSZ >= DOFF + CL1 + (NCH > 2 ? CL2 : 0)) OBLIGE(!failed, "C02/intact-file-reads-without-error");
+#ifndef ZS_DDICT_FAIL
+    if(s.allok && FSZ >= DOFF + CL0 + CL1 + (NCH > 2 ? CL2 : 0)) OBLIGE(!failed, "C02/intact-file-reads-without-error");
+#else
+    OBLIGE(failed, "C02/rejected-dictionary-is-an-error");
+#endif
+    zck_free(&s.t.z);
+    OBLIGE(s.t.z == NULL, "C03/context-freed-after-any-outcome");
     WITNESS("h15q-end");
 }
 #endif
@@ -150,9 +184,11 @@ void h14q(void) {
                 OBLIGE((unsigned char)buf[k] == IN_file[DOFF + s.t.c[i]->start + k], "C14/stored-data-request-returns-the-stored-bytes");
         } else {
             ssize_t n = zck_get_chunk_data(c, buf, UL[i]);
-            OBLIGE(n == (ssize_t)s.olen[i], "C14/data-request-returns-the-declared-size-regardless-of-history");
+            /* the dictionary is not part of the content stream, but a request for chunk 0 returns its decoded bytes */
+            size_t elen = (i == 0) ? (CL0 > 0 ? CL0 - SKIP : 0) : s.olen[i];
+            OBLIGE(n == (ssize_t)elen, "C14/data-request-returns-the-declared-size-regardless-of-history");
             for(size_t k = 0; k < 4; k++) if(n > 0 && k < (size_t)n)
-                OBLIGE((unsigned char)buf[k] == s.out[s.ooff[i] + k], "C14/data-request-returns-the-chunk-slice-regardless-of-history");
+                OBLIGE((unsigned char)buf[k] == (i == 0 ? IN_file[DOFF + SKIP + k] : s.out[s.ooff[i] + k]), "C14/data-request-returns-the-chunk-slice-regardless-of-history");
         }
     }
     WITNESS("h14q-end");
